@@ -160,6 +160,8 @@ type RelayGen struct {
 	NextPort int
 	// Delay is slept inside each generator call (virtual time) - a yield point.
 	Delay time.Duration
+	// CloseNoticeDelay: relay UDP sockets report their own Close to a blocked reader this late.
+	CloseNoticeDelay time.Duration
 }
 
 // Validate implements turn.RelayAddressGenerator.
@@ -213,6 +215,7 @@ func (g *RelayGen) AllocatePacketConn(conf turn.AllocateListenerConfig) (net.Pac
 	if err != nil {
 		return nil, nil, err
 	}
+	c.CloseNoticeDelay = g.CloseNoticeDelay
 	g.mu.Lock()
 	g.Res = append(g.Res, &Resource{Kind: "udp", Addr: c.Addr().String(), User: conf.UserID, At: time.Now(), UDP: c})
 	g.mu.Unlock()
